@@ -128,6 +128,7 @@ def run_shard(spec, rec):
         mode = R.random()
         if mode < 0.6:
             cfg = G.Cfg(filters=True, regex_functions=True, max_depth=2, max_segments=3)
+            cfg.regex_pool = cfg.regex_pool + G.HOSTILE_PATTERNS
             gen = G.QGen(R, cfg)
             q = gen.query(root="$")
             text = multiline(R, q, rec.features)
